@@ -930,20 +930,23 @@ Qed.
 
 Lemma metax_accept n e :
   x_err (fst (metax_validate n e)) = false ->
-  negb (Qle_bool (mx_weight (snd (metax_validate n e))) Q0) = true /\ mx_sigmas (snd (metax_validate n e)) = n.
+  negb (Qle_bool (mx_weight (snd (metax_validate n e))) Q0) = true /\ mx_sigmas (snd (metax_validate n e)) = n /\
+  forallb (Qltb Q0) (mx_widths (snd (metax_validate n e))) = true.
 Proof.
-  unfold metax_validate, Qltb.
+  unfold metax_validate.
   destruct (ereal e "hillWeight" Q0) as [hw p0].
   destruct (eint TSize e "newHillFrequency" 1000) as [nhf pf1].
   destruct (eint TSize e "gridsUpdateFrequency" nhf) as [guf pf2].
   destruct (getV (elist e "gaussianSigmas") []) as [sig es].
   destruct (ereal e "hillWidth" Q0) as [hwid p1].
-  destruct (Nat.eqb (if negb (Qle_bool hwid Q0) then n else List.length sig) n) eqn:En; cbn [negb];
+  destruct (Nat.eqb (if Qltb Q0 hwid then n else List.length sig) n) eqn:En; cbn [negb];
+    [| cbn [fst]; rewrite x_err_flag_input; discriminate].
+  destruct (forallb (Qltb Q0) (if Qltb Q0 hwid then [] else sig)) eqn:Ew; cbn [negb];
     [| cbn [fst]; rewrite x_err_flag_input; discriminate].
   destruct (ereal e "biasTemperature" (-1 # 1)) as [bt p2].
-  cbn [fst snd mx_weight mx_sigmas]. rewrite !x_err_flag_input. cbn [x_err no_errs]. intro H.
-  split; [| apply Nat.eqb_eq; exact En].
-  destruct (Qle_bool hw Q0); [orb_simpl H; discriminate H | reflexivity].
+  cbn [fst snd mx_weight mx_sigmas mx_widths]. rewrite !x_err_flag_input. cbn [x_err no_errs]. intro H.
+  split; [| split; [apply Nat.eqb_eq; exact En | exact Ew]].
+  unfold Qltb in H. destruct (Qle_bool hw Q0); [orb_simpl H; discriminate H | reflexivity].
 Qed.
 
 Lemma abfshared_accept rof e :
